@@ -44,6 +44,8 @@ theorem nodup_append_rec (st : St) (r : Rec) (h : NoDup st) (hr : ∀ n, r.name 
 theorem ensureSeg_nodup (st st' : St) (n : String) (h : NoDup st) (he : ensureSeg st n = .ok st') : NoDup st' := by
   unfold ensureSeg at he
   split at he
+  · cases he
+  split at he
   · cases he; exact h
   · split at he
     · rename_i hnone
@@ -520,7 +522,7 @@ theorem add_complement_noop (st : St) (r : Rec) (l : Link) (i : Nat)
     (hreal : (st.lines.getD i default).virt = false) (hc : complOfStored st l i = true) :
     addLinkOnto st r l i = .ok st := by
   unfold addLinkOnto
-  rw [if_neg (by rw [hreal]; decide), if_pos hc]
+  rw [if_neg (by rw [hreal]; simp), if_pos hc]
 
 -- non-vacuity: a forward reference creates a placeholder segment, the definition replaces it
 example : (run .gfa1 [.add ⟨.L, ["A", "+", "B", "-", "*"], false⟩, .add ⟨.S, ["A", "*"], false⟩]).lines.length = 3 := by
